@@ -15,8 +15,8 @@ Model (Model/Cmp.lean): `comparePair` (tables + six counters of `compare_pair`),
 Specification: `partners`, `relPair`, `rel`, `scoreSpec` (column-wise, no tables).
 
 Hypotheses and what they stand for:
-* `NamesOK R` — "uniquely named": the first 256 bytes of the names are pairwise distinct (the code
-  compares with `strncmp(·,·,256)`) and names are C strings;
+* `NamesOK R` — "uniquely named": the names are pairwise distinct (the code compares full names
+  with `strcmp`) and are C strings (no NUL byte inside);
 * `(namedSeqs R).Perm (namedSeqs T)` — the two alignments hold the same named sequences;
 * `∀ x ∈ R, x.row.length = wR` — an alignment is rectangular (`alnlen`).
 The score is the pair `scoreQ c = (100·identical, total)`; `total = 0` (fewer than two rows, or no
@@ -120,5 +120,28 @@ example : (∀ x ∈ exR, x.row.length = 5) ∧ (∀ x ∈ exT, x.row.length = 6
 example : SameModAllGap exR exT :=
   ⟨[], [false, true], by decide, by decide, by decide⟩
 example : (⟨[0x62], "AC-G-".toList⟩ : NRow).name ≠ (⟨[0x61], "A-CGT".toList⟩ : NRow).name := by decide
+
+/-- the defect repaired by commit 0022995: two names that differ only after byte 256 are "uniquely
+named" (before, `kalign_check_msa` saw duplicates and `kalign_msa_compare` returned FAIL) -/
+def exLate : List NRow :=
+  [⟨replicate 256 0x41 ++ [0x42], "AC-G".toList⟩, ⟨replicate 256 0x41 ++ [0x43], "A-CG".toList⟩]
+
+theorem late_names_ok : NamesOK exLate ∧ checkMsaStrict exLate = true := by
+  have h : NamesOK exLate := by
+    constructor
+    · show ([replicate 256 0x41 ++ [0x42], replicate 256 0x41 ++ [0x43]] : List Name).Nodup
+      rw [nodup_cons]
+      refine ⟨?_, Pairwise.cons (fun _ h => by cases h) Pairwise.nil⟩
+      intro hm
+      rw [mem_singleton] at hm
+      have := append_cancel_left hm
+      exact absurd this (by decide)
+    · intro x hx
+      simp only [exLate, mem_cons, not_mem_nil, or_false] at hx
+      rcases hx with rfl | rfl <;>
+      · intro b hb
+        simp only [mem_append, mem_replicate, mem_singleton] at hb
+        rcases hb with ⟨_, rfl⟩ | rfl <;> decide
+  exact ⟨h, checkMsaStrict_of_namesOK h⟩
 
 end Kalign
